@@ -26,7 +26,19 @@ func runC12(c *Ctx) {
 	}
 	c.runEffect("C12.E1", []*ssa.Function{ap}, nonRecv, "ApplyPatches")
 	c.runEffect("C12.E2", []*ssa.Function{apply}, nonRecv, "Apply")
-	c.Min("C12.E1", 2)
+	// positive / negative examples for the effect engine (its expected finding count on a healthy tree is zero)
+	if w, err := buildWitness(c.Fset); err == nil {
+		all := func(f *ssa.Function) []*ssa.Parameter { return f.Params }
+		viol := func(name string) int {
+			a := &effect{c: c, fl: map[ssa.Value]int{}, tup: map[ssa.Value]map[int]int{}, locs: map[string]bool{}, ret: map[*ssa.Function]map[int]int{}, viol: map[string]effViolation{}, ext: map[string]int{}}
+			a.run([]*ssa.Function{w.fns[name]}, all)
+			return len(a.viol)
+		}
+		c.alive("C12.E1", "write into a nested map of the input / append to an input slice", viol("mutateWitness") > 0 && viol("appendWitness") > 0, viol("copyOK") == 0)
+	} else {
+		c.Check("C12.E1", "positive-example:build", false, 0, "built-in positive examples could not be built: "+err.Error())
+	}
+	c.Min("C12.E1", 3)
 	c.Min("C12.E2", 2)
 
 	// import inventory: no unsafe / reflect-based writes in module code reachable here
